@@ -4,7 +4,7 @@
 """Utility functions for interoperability with meshio"""
 
 from __future__ import annotations
-from numpy import ndarray
+from numpy import ndarray, concatenate
 from numpy.typing import ArrayLike
 
 from meshio import Mesh as MeshIOMesh
@@ -22,10 +22,18 @@ from . import protocols
 
 def from_meshio(mesh: MeshIOMesh) -> MeshFields:
     """Convert a mesh data structure of the meshio library into MeshFields"""
+    # meshio meshes may contain several blocks of the same cell type: merge them (and their data) per cell type
+    block_types = [_from_meshio_cell_type(block.type) for block in mesh.cells]
+    cell_types = list(dict.fromkeys(block_types))
+
+    def _of_type(cell_type: CellType, values_per_block) -> ndarray:
+        values = [v for v, t in zip(values_per_block, block_types) if t == cell_type]
+        return values[0] if len(values) == 1 else concatenate(values)
+
     return MeshFields(
-        mesh=Mesh(mesh.points, ((_from_meshio_cell_type(block.type), block.data) for block in mesh.cells)),
+        mesh=Mesh(mesh.points, ((ct, _of_type(ct, [block.data for block in mesh.cells])) for ct in cell_types)),
         point_data=mesh.point_data,
-        cell_data=mesh.cell_data,
+        cell_data={name: [_of_type(ct, data) for ct in cell_types] for name, data in mesh.cell_data.items()},
     )
 
 
